@@ -472,6 +472,14 @@ def in_plane_prim(rng, ka, B, lattice=False):
             return None
         return dict(kind="line", p=p, d=unit(d))
     if ka == "line_segment":
+        if rng.random() < 0.4:
+            # a SHORT in-plane segment (absolute length 0.03 .. 0.9) near the boundary of B: corner cuts, grazing passes
+            a, b = co(), co()
+            th = rng.uniform(0, 2 * math.pi)
+            lam = 10 ** rng.uniform(math.log10(0.03), math.log10(0.9))
+            s0 = [org[i] + a * u[i] + b * v[i] for i in range(3)]
+            e0 = [s0[i] + lam * (math.cos(th) * u[i] + math.sin(th) * v[i]) for i in range(3)]
+            return dict(kind="line_segment", s=s0, e=e0)
         return dict(kind="line_segment", s=P(), e=P())
     if ka == "triangle":
         return dict(kind="triangle", pts=[P(), P(), P()])
